@@ -12,7 +12,7 @@ import z3
 BOUNDS = {
     "quick": "case flips of symbolic ASCII letters in scheme / host / path / query / fragment (holes of length <= 2); any port 1..65535 (symbolic 1-5 digit string); "
              "language labels 'xx' and 'xx-yy' with symbolic letters drawn from the ISO-3166 set in front of hosts with 2 and 3 labels; gl / hl items at 3 positions with symbolic values; "
-             "strip_suffix=True across 10 bundled suffixes of 1-4 labels (plain / wildcard instance / private); result has no scheme / userinfo / port on the 18 shared skeletons with holes of length <= 2",
+             "strip_suffix=True across 10 bundled suffixes of 1-4 labels (plain / wildcard instance / private); result has no scheme / userinfo / port on the 19 shared skeletons with holes of length <= 2",
     "thorough": "holes of length <= 3",
 }
 STUBS = ["see C01; ISO-3166 membership as a disjunction over the live set"]
@@ -83,9 +83,10 @@ def inv(st, kind, n, strip_suffix):
         strip_suffix = True
     else:
         raise ValueError(kind)
-    run_prop(st, "invariant/" + kind.split("-")[0], S.same_fingerprint, u, v, strip_suffix)
     if kind.startswith("suffix-"):
+        # first, so that the calls with strip_suffix=False really are the first ones on these hosts
         run_prop(st, "invariant/suffix-after-other-calls", S.same_fingerprint_after_other_calls, u, v)
+    run_prop(st, "invariant/" + kind.split("-")[0], S.same_fingerprint, u, v, strip_suffix)
 
 
 def shape(st, skel, n, strip_suffix):
